@@ -7,7 +7,7 @@
    distinct values and prefix-free indices, target values have the type their action expects.
    Only statements; proofs in theories/SchcRoundtrip.v (built on SchcCodec, SchcRules, ParserTiling). *)
 From Coq Require Import ZArith List Bool.
-From MS Require Import PyBase Bits Schc SchcSpec SchcCodec SchcRules SchcRoundtrip Parsers ParserTiling Compute RfcChecksum StackRoundtrip Buffer BufferAbs SchcBytes SchcRefine ParserBytes ParserRefine EndToEnd.
+From MS Require Import PyBase Bits Schc SchcSpec SchcCodec SchcRules SchcRoundtrip Parsers ParserTiling Compute RfcChecksum StackRoundtrip Buffer BufferAbs SchcBytes SchcRefine ParserBytes ParserRefine EndToEnd ComputeBytes ComputeRefine.
 Import ListNotations.
 Open Scope Z_scope.
 
@@ -18,12 +18,23 @@ Theorem c01_roundtrip_plain ct d pd r : pd_dir pd = d -> rule_ok_dec ct d pd r -
   exists s, compress pd r (Some d) = Ok s /\
             decompress ct s r (Some d) = Ok (concat (map f_val (pd_fields pd)) ++ pd_payload pd).
 Proof. exact (c01_roundtrip_nocompute ct d pd r). Qed.
-(* with compute fields: provided the compute stage regenerates the values the packet carried (which is what C09
-   establishes for packets whose lengths and checksums are correct) *)
+(* with compute fields: provided the compute stage, run in the order list.sort puts the compute entries in, regenerates
+   the values the packet carried (which is what C09 establishes for packets whose lengths and checksums are correct) *)
+Theorem c01_roundtrip_compute_sort ct d pd r ces : pd_dir pd = d -> rule_ok_dec ct d pd r -> spec_rule_applies pd r = true ->
+  let rfs := select_fds (Some d) (rule_fds r) in
+  let ids := map r_id rfs in
+  py_sort_ces (centries_of ct 0 rfs) = Some ces ->
+  run_computes ces (combine ids (map2 pre_value rfs (pd_fields pd)) ++ [(payload_fid, pd_payload pd)])
+    = Ok (combine ids (map f_val (pd_fields pd)) ++ [(payload_fid, pd_payload pd)]) ->
+  exists s, compress pd r (Some d) = Ok s /\
+            decompress ct s r (Some d) = Ok (concat (map f_val (pd_fields pd)) ++ pd_payload pd).
+Proof. exact (c01_roundtrip_sort ct d pd r ces). Qed.
+(* entries already in the order of the comparison, fewer than 64 of them: the compute stage runs in rule order *)
 Theorem c01_roundtrip_compute ct d pd r : pd_dir pd = d -> rule_ok_dec ct d pd r -> spec_rule_applies pd r = true ->
   let rfs := select_fds (Some d) (rule_fds r) in
   let ids := map r_id rfs in
   ce_sorted (centries_of ct 0 rfs) = true ->
+  (length (centries_of ct 0 rfs) < 64)%nat ->
   run_computes (centries_of ct 0 rfs) (combine ids (map2 pre_value rfs (pd_fields pd)) ++ [(payload_fid, pd_payload pd)])
     = Ok (combine ids (map f_val (pd_fields pd)) ++ [(payload_fid, pd_payload pd)]) ->
   exists s, compress pd r (Some d) = Ok s /\
@@ -40,7 +51,7 @@ Theorem c01_manager ct parse rules packet d st fs pl :
      (rule_nature r = NoCompression /\ rule_fds r = []) \/
      (rule_ok_dec ct d (mkpdesc d fs pl) r /\
       let rfs := select_fds (Some d) (rule_fds r) in
-      ce_sorted (centries_of ct 0 rfs) = true /\
+      ce_sorted (centries_of ct 0 rfs) = true /\ (length (centries_of ct 0 rfs) < 64)%nat /\
       run_computes (centries_of ct 0 rfs) (combine (map r_id rfs) (map2 pre_value rfs fs) ++ [(payload_fid, pl)])
         = Ok (combine (map r_id rfs) (map f_val fs) ++ [(payload_fid, pl)]))) ->
   forall s, cm_compress parse rules packet d st = Ok s -> cm_decompress ct rules s (Some d) = Ok packet.
@@ -94,6 +105,26 @@ Theorem c01_bytes_no_compression s b bfs bpl r d :
   exists x y, bcompress (mkbpdesc d bfs bpl) r (Some d) = Ok x /\ canon x /\
               bdecompress x r (Some d) = Ok y /\ canon y /\ abs y = abs b /\ b_eq y b = Ok true.
 Proof. exact (bytes_roundtrip_nocompression s b bfs bpl r d). Qed.
+(* ... and with computed fields: the byte-level decompress with its compute stage (ComputeBytes.v: the compute functions written
+   with chunks / value / + on Buffers, the sort of the compute entries as list.sort performs it) regenerates lengths and checksums *)
+Theorem c01_bytes_ipv6_udp s b bfs bpl r d :
+  canon b -> bside b = LEFT -> canon_rule r -> bfactory s b = Ok (bfs, bpl) ->
+  let pd := abs_pdesc abs (mkbpdesc d bfs bpl) in
+  let r' := abs_rule abs r in
+  rule_ok_dec compute_functions d pd r' -> spec_rule_applies pd r' = true ->
+  v6_shape (pd_fields pd) -> v6_correct (pd_fields pd) (pd_payload pd) ->
+  exists x y, bcompress (mkbpdesc d bfs bpl) r (Some d) = Ok x /\ canon x /\
+              bdecompress_c x r (Some d) = Ok y /\ canon y /\ abs y = abs b /\ b_eq y b = Ok true.
+Proof. exact (bytes_roundtrip_ipv6_udp s b bfs bpl r d). Qed.
+Theorem c01_bytes_ipv4_udp s b bfs bpl r d :
+  canon b -> bside b = LEFT -> canon_rule r -> bfactory s b = Ok (bfs, bpl) ->
+  let pd := abs_pdesc abs (mkbpdesc d bfs bpl) in
+  let r' := abs_rule abs r in
+  rule_ok_dec compute_functions d pd r' -> spec_rule_applies pd r' = true ->
+  v4_shape (pd_fields pd) -> v4_correct (pd_fields pd) (pd_payload pd) ->
+  exists x y, bcompress (mkbpdesc d bfs bpl) r (Some d) = Ok x /\ canon x /\
+              bdecompress_c x r (Some d) = Ok y /\ canon y /\ abs y = abs b /\ b_eq y b = Ok true.
+Proof. exact (bytes_roundtrip_ipv4_udp s b bfs bpl r d). Qed.
 Example c01_bytes_ex : exists bfs bpl x y,
   bfactory S_UDP ex_packet = Ok (bfs, bpl) /\
   bcompress (mkbpdesc Up bfs bpl) ex_rule (Some Up) = Ok x /\ canon x /\
@@ -116,12 +147,15 @@ Example c01_ex :
 Proof. vm_compute. split; reflexivity. Qed.
 
 Print Assumptions c01_roundtrip_plain.
+Print Assumptions c01_roundtrip_compute_sort.
 Print Assumptions c01_roundtrip_compute.
 Print Assumptions c01_no_compression.
 Print Assumptions c01_stack_ipv6_udp.
 Print Assumptions c01_stack_ipv4_udp.
 Print Assumptions c01_bytes_roundtrip.
 Print Assumptions c01_bytes_no_compression.
+Print Assumptions c01_bytes_ipv6_udp.
+Print Assumptions c01_bytes_ipv4_udp.
 Print Assumptions c01_manager.
 Print Assumptions c01_stack_tiles.
 Print Assumptions c01_matcher.
